@@ -178,8 +178,8 @@ func (c *fakeConn) ExecContext(_ context.Context, q string, _ []driver.NamedValu
 		id, ok := idAfter(lq, "transaction_id_")
 		if r := m.sysByID(id); ok && r != nil {
 			// setval(seq, NULL) — no rows — is a no-op (setval is STRICT)
-			if tx, _, hasTx, _ := m.visibleMaxIDs(r.l.Name); hasTx {
-				m.state(r.l.Name).sq.Tx = tx
+			if v, has := m.maxOfSubquery(r.l.Name, lq); has {
+				m.state(r.l.Name).sq.Tx = v
 			}
 			return fakeResult{}, nil
 		}
@@ -187,14 +187,32 @@ func (c *fakeConn) ExecContext(_ context.Context, q string, _ []driver.NamedValu
 	case strings.Contains(lq, "select setval(") && strings.Contains(lq, "log_id_"):
 		id, ok := idAfter(lq, "log_id_")
 		if r := m.sysByID(id); ok && r != nil {
-			if _, lg, _, hasLog := m.visibleMaxIDs(r.l.Name); hasLog {
-				m.state(r.l.Name).sq.Log = lg
+			if v, has := m.maxOfSubquery(r.l.Name, lq); has {
+				m.state(r.l.Name).sq.Log = v
 			}
 			return fakeResult{}, nil
 		}
 		return nil, fmt.Errorf("memstore: unexpected setval %q", q)
 	}
 	return nil, fmt.Errorf("memstore: unexpected statement %q", q)
+}
+
+// maxOfSubquery: the value of `(select max(id) from "<bucket>".<table> where ledger = …)`
+// — the table is the one the statement names, whatever sequence it is assigned to.
+func (m *Mem) maxOfSubquery(name, lq string) (uint64, bool) {
+	tx, lg, hasTx, hasLog := m.visibleMaxIDs(name)
+	i := strings.Index(lq, "select max(id) from")
+	if i < 0 {
+		return 0, false
+	}
+	rest := lq[i:]
+	switch {
+	case strings.Contains(rest, ".transactions"):
+		return tx, hasTx
+	case strings.Contains(rest, ".logs"):
+		return lg, hasLog
+	}
+	return 0, false
 }
 
 // visibleMaxIDs: max ids as the statement sees them — the tables of the open
